@@ -775,7 +775,7 @@ func buildEscalator(repo string) (string, error) {
 		return "", err
 	}
 	tmp := fmt.Sprintf("%s.%d", bin, os.Getpid())
-	cmd := exec.Command("go", "build", "-o", tmp, "./cmd")
+	cmd := exec.Command("go", "build", "-ldflags", "-s -w", "-o", tmp, "./cmd")
 	cmd.Dir = repo
 	env := []string{}
 	for _, e := range os.Environ() {
@@ -791,6 +791,14 @@ func buildEscalator(repo string) (string, error) {
 	}
 	if err := os.Rename(tmp, bin); err != nil {
 		return "", err
+	}
+	// binaries of other source states (earlier runs) are not needed again; leave recent ones to concurrent runs
+	if old, err := filepath.Glob(filepath.Join(os.TempDir(), "verif-c16-????????????????")); err == nil {
+		for _, d := range old {
+			if st, err := os.Stat(d); err == nil && d != dir && time.Since(st.ModTime()) > 10*time.Minute {
+				os.RemoveAll(d)
+			}
+		}
 	}
 	return bin, nil
 }
